@@ -168,6 +168,38 @@ def judge(res, n, js, style, r, d=None, req=None):
         res.count("classes_checked")
 
 
+def judge_layout(res, n, js, slots, lr):
+    """Judgement sets that unify cleanly must also resolve: building the layout terminates (cyclic types are cut)
+    without crashing."""
+    res.evaluations += 1
+    case = {"nvars": n, "judgements": js, "slots": slots, "layout_level": True}
+    cls = lr.get("class")
+    if cls in ("timeout", "oom", "harness_error"):
+        res.inconc("layout:%s" % cls)
+        return
+    res.judged += 1
+    res.count("layout_level_cases")
+    if cls in ("crash", "panic"):
+        res.violation("c14:layout:%s" % (("crash:signal-%s" % lr.get("signal")) if cls == "crash" else
+                                          "panic:%s:%s" % ((lr.get("file") or "?").split("/")[-1], lr.get("line"))),
+                      "resolving the types of the bound slots did not return: %s" % json.dumps(lr)[:200], case)
+        return
+    if cls == "err":
+        kinds = lr.get("kinds") or []
+        if "StoppedByWatchdog" in kinds:
+            res.violation("c14:layout:does-not-terminate", "layout building was still running after 400 000 polls", case)
+        else:
+            res.count("layout_level_errors:%s" % ",".join(sorted(set(kinds)))[:60])
+        return
+    got = {int(e["index"], 16) for e in lr.get("layout", [])}
+    missing = [s for s, _ in slots if int(s, 16) not in got]
+    if missing:
+        # not demanded here: hostile packed spans (offset >= 256) are legitimately dropped from the layout
+        res.count("layout_level_slots_without_entry", len(missing))
+    if any("infinite_type" in json.dumps(e.get("type")) for e in lr.get("layout", [])):
+        res.count("layouts_with_cut_cycles")
+
+
 def shard(shard_no, nshards, seed, tier, extra):
     res = common.Result()
     rng = common.rng_for(seed, "c14", shard_no)
@@ -178,6 +210,14 @@ def shard(shard_no, nshards, seed, tier, extra):
         req = {"op": "unify", "nvars": n, "judgements": js, "budget": 200_000, "rand_seed": rng.getrandbits(48)}
         r = d.call(req, timeout=120)
         judge(res, n, js, style, r, d, req)
+        if rng.random() < 0.25 and r.get("class") == "ok":
+            # the same judgement set seen by the whole type checker: a few of the variables are the values of constant
+            # storage slots, and the real TypeChecker::unify resolves their types and builds the layout
+            k = rng.randint(1, min(3, n))
+            slots = [["0x%x" % (5 + si), rng.randrange(n)] for si in range(k)]
+            lr = d.call({"op": "tc_layout", "nvars": n, "judgements": js, "slots": slots, "budget": 400_000,
+                         "rand_seed": rng.getrandbits(48)}, timeout=120)
+            judge_layout(res, n, js, slots, lr)
         if i < 2:
             res.sample({"nvars": n, "judgements": js[:12], "result_vars": (r.get("vars") or [])[:6]})
     d.stop()
@@ -191,7 +231,9 @@ def run(tier, seed, t0):
         "random judgement sets over 2..40 type variables: equalities, words of all usages x widths, dynamic bytes, Any, "
         "mappings, fixed and dynamic arrays, packed encodings with overlapping / unsorted / zero-size / out-of-word spans, "
         "cyclic references (mapping<k, self>, array<self>, packed[self]); styles mixed / no-packed / cyclic / "
-        "equality-heavy / constructor-heavy; each under a fresh hash seed. distinct = distinct judgement set (all are "
+        "equality-heavy / constructor-heavy; each under a fresh hash seed; a quarter of the sets that unify cleanly are also "
+        "given to the whole TypeChecker with 1-3 of their variables bound to constant storage slots (types resolved, cycles "
+        "cut, layout built). distinct = distinct judgement set (all are "
         "non-trivial: every set has at least one judgement)",
         t0, ["termination is decided on a poll budget of 200 000 class visits (bounded restatement)",
              "component unification is only demanded for classes that did not resolve to a conflict"], min_judged=500)
@@ -201,6 +243,15 @@ def replay(path):
     case = json.load(open(path))["case"]
     res = common.Result()
     d = common.Driver("rel", shim=True)
+    if case.get("layout_level"):
+        lr = d.call({"op": "tc_layout", "nvars": case["nvars"], "judgements": case["judgements"], "slots": case["slots"],
+                     "budget": 400_000, "rand_seed": 1}, timeout=120)
+        judge_layout(res, case["nvars"], case["judgements"], case["slots"], lr)
+        d.stop()
+        print(json.dumps(lr)[:800])
+        for v in res.violations:
+            print("VIOLATION-REPLAY", v["signature"], v["what"])
+        return 1 if res.violations else 0
     req = {"op": "unify", "nvars": case["nvars"], "judgements": case["judgements"], "budget": 200_000, "rand_seed": 1}
     r = d.call(req, timeout=120)
     judge(res, case["nvars"], case["judgements"], "replay", r, d, req)
